@@ -1,19 +1,20 @@
 import KyupyVerif.Proofs.SubstSem8
 import KyupyVerif.Proofs.SubstStruct5
+import KyupyVerif.Proofs.Densify
 /-! Helper lemmas for C10 (`substitute_sem`), part 9: the certificate for `substitute` in regular use under the decidable
 side conditions, the converse of `WF.of_wf`, and the packaged semantic statement. -/
 namespace KV.Transform
 open KV
 
-theorem implOKB_spec (m : NNet) (sh : Shape) (dn : Nat) (hs : implShape m = some sh) (hd : sh.des = some dn)
+theorem implOKB_spec (m : NNet) (mw : WF m) (sh : Shape) (dn : Nat) (hs : implShape m = some sh) (hd : sh.des = some dn)
     (hok : implOKB m = true) :
     dn ∉ m.net.io ∧ m.net.io.Nodup ∧ (∀ p ∈ m.net.io, isSeqKind (m.net.node p).kind = false) ∧
     (∀ p ∈ m.net.io, 0 < (m.net.node p).ins.length → 0 < (m.net.node p).outs.length → (m.net.node p).isFork = true) := by
   unfold implOKB at hok
   rw [hs] at hok
   simp only [hd, Bool.and_eq_true, decide_eq_true_eq, List.all_eq_true, Bool.not_eq_true', Bool.or_eq_true] at hok
-  obtain ⟨⟨h1, h2⟩, h3⟩ := hok
-  refine ⟨by simpa using h1, h2, fun p hp => (h3 p hp).1, fun p hp hi ho => ?_⟩
+  obtain ⟨⟨_, h2⟩, h3⟩ := hok
+  refine ⟨implShape_des_notPort m mw sh dn hs hd (fun p hp => (h3 p hp).1), h2, fun p hp => (h3 p hp).1, fun p hp hi ho => ?_⟩
   rcases (h3 p hp).2 with h4 | h4
   · simp [hi, ho] at h4
   · exact h4
@@ -76,10 +77,13 @@ theorem removeDangling_kept (nn : NNet) (own : List Nat) : ∀ (fuel : Nat) (sta
             · exact h3 hk
             · exact h4 hk
 
-/-- when nothing is removed the result is the circuit `substituteCore` builds -/
-theorem substitute_keepsAll_eq (h : NNet) (c : Nat) (m h' : NNet) (hr : keepsAllB h c m = true) (he : substitute h c m = some h') :
-    ∃ sh dn map dang, implShape m = some sh ∧ sh.des = some dn ∧ substituteCore h c m = some (h', map, dang) ∧
-      NoIgnored m (sh.inPorts.zip (padTo (h.net.node c).ins sh.inPorts.length)) := by
+/-- what `keepsAllB` says -/
+theorem keepsAllB_spec (h : NNet) (c : Nat) (m : NNet) (hr : keepsAllB h c m = true) :
+    ∃ sh dn h5 map dang, implShape m = some sh ∧ sh.des = some dn ∧ substituteCore h c m = some (h5, map, dang) ∧
+      NoIgnored m (sh.inPorts.zip (padTo (h.net.node c).ins sh.inPorts.length)) ∧
+      (dang.all fun o => match o with
+        | none => true
+        | some root => keptRoot h5 (map.toList.filterMap id) root) = true := by
   unfold keepsAllB at hr
   split at hr
   · rename_i sh h5 map dang hs hcore
@@ -88,21 +92,52 @@ theorem substitute_keepsAll_eq (h : NNet) (c : Nat) (m h' : NNet) (hr : keepsAll
     cases hd : sh.des with
     | none => rw [hd] at h1; simp at h1
     | some dn =>
-      unfold substitute at he
-      rw [hcore] at he
-      dsimp only at he
-      rw [removeDangling_kept h5 _ _ dang (by omega) h3] at he
-      cases (Option.some.inj he)
-      refine ⟨sh, dn, map, dang, hs, hd, hcore, ?_⟩
+      refine ⟨sh, dn, h5, map, dang, hs, hd, hcore, ?_, h3⟩
       intro p hp hsome
       have := List.all_eq_true.mp h2 p hp
       simpa [hsome] using this
   · exact absurd hr (by simp)
 
+/-- when nothing is removed the result is the circuit `substituteCore` builds, with the outputs of the copied forks made
+    dense (the loop added with the repair of D30) -/
+theorem substitute_of_core (h : NNet) (c : Nat) (m h' h5 : NNet) (map : Array (Option Nat)) (dang : List (Option Nat))
+    (hcore : substituteCore h c m = some (h5, map, dang)) (w5 : WF h5)
+    (hk : (dang.all fun o => match o with
+        | none => true
+        | some root => keptRoot h5 (map.toList.filterMap id) root) = true)
+    (he : substitute h c m = some h') : h' = densNN h5 (map.toList.filterMap id) := by
+  unfold substitute at he
+  rw [hcore] at he
+  dsimp only at he
+  obtain ⟨d, _⟩ := densNN_dens (map.toList.filterMap id) h5 w5
+  have hk' : (dang.all fun o => match o with
+        | none => true
+        | some root => keptRoot (densNN h5 (map.toList.filterMap id)) (map.toList.filterMap id) root) = true := by
+    rw [List.all_eq_true] at hk ⊢
+    intro o ho
+    have := hk o ho
+    cases o with
+    | none => rfl
+    | some root => simpa only [keptRoot_dens d] using this
+  have he' : removeDangling (dang.length + h5.net.lines.size + 1) (densNN h5 (map.toList.filterMap id))
+      (map.toList.filterMap id) dang = some h' := he
+  rw [removeDangling_kept _ _ _ dang (by omega) hk'] at he'
+  exact (Option.some.inj he').symm
+
+/-- the same under `keepsAllB`; `w5`: the circuit `substituteCore` builds is well-formed (`substituteCore_cert`) -/
+theorem substitute_keepsAll_eq (h : NNet) (c : Nat) (m h' : NNet) (hr : keepsAllB h c m = true) (he : substitute h c m = some h')
+    (w5 : ∀ h5 map dang, substituteCore h c m = some (h5, map, dang) → WF h5) :
+    ∃ sh dn h5 map dang, implShape m = some sh ∧ sh.des = some dn ∧ substituteCore h c m = some (h5, map, dang) ∧
+      h' = densNN h5 (map.toList.filterMap id) ∧
+      NoIgnored m (sh.inPorts.zip (padTo (h.net.node c).ins sh.inPorts.length)) := by
+  obtain ⟨sh, dn, h5, map, dang, hs, hd, hcore, hni, hk⟩ := keepsAllB_spec h c m hr
+  exact ⟨sh, dn, h5, map, dang, hs, hd, hcore,
+    substitute_of_core h c m h' h5 map dang hcore (w5 h5 map dang hcore) hk he, hni⟩
+
 /-- regular use is a use in which nothing is removed -/
 theorem regularB_keepsAll (h : NNet) (c : Nat) (m h' : NNet) (hr : regularB h c m = true) (he : substitute h c m = some h') :
     keepsAllB h c m = true := by
-  obtain ⟨sh, dn, map, hs, hd, hcore, hni⟩ := substitute_regular_eq h c m h' hr he
+  obtain ⟨sh, dn, map, h5, hs, hd, hcore, _, hni⟩ := substitute_regular_eq' h c m h' hr he
   unfold keepsAllB
   rw [hs, hcore]
   simp only [hd, Option.isSome_some, Bool.true_and, List.all_nil, Bool.and_true, List.all_eq_true, Bool.or_eq_true,
@@ -115,15 +150,32 @@ theorem regularB_keepsAll (h : NNet) (c : Nat) (m h' : NNet) (hr : regularB h c 
     have := hni p hp (by rw [hp2]; rfl)
     simpa using this
 
+/-- the certificate for the RESULT of `substitute` when nothing is removed: the circuit `h5` that `substituteCore` builds
+    satisfies `SubstCert`, and the result is `h5` with the outputs of the copied forks made dense (`densify`; the same
+    circuit when no copied fork has a gap, `denseB`) -/
+def SubstCertD (h : NNet) (c : Nat) (m : NNet) (sh : Shape) (dn : Nat) (map : Array (Option Nat)) (h' : NNet) : Prop :=
+  ∃ h5, SubstCert h c m sh dn map h5 ∧ h' = densNN h5 (map.toList.filterMap id)
+
+/-- the certificate for the circuit `substituteCore` builds when nothing is removed -/
+theorem substituteCore_cert_keepsAll (h m : NNet) (c : Nat) (hw : WF h) (mw : WF m) (hc : c < h.net.nodes.size)
+    (hio : h.net.io.contains c = false) (hcf : (h.net.node c).isFork = false)
+    (hr : keepsAllB h c m = true) (hok : implOKB m = true) :
+    ∃ sh dn h5 map dang, substituteCore h c m = some (h5, map, dang) ∧ SubstCert h c m sh dn map h5 ∧
+      (dang.all fun o => match o with
+        | none => true
+        | some root => keptRoot h5 (map.toList.filterMap id) root) = true := by
+  obtain ⟨sh, dn, h5, map, dang, hs, hd, hcore, hni, hk⟩ := keepsAllB_spec h c m hr
+  obtain ⟨k1, k2, k3, k4⟩ := implOKB_spec m mw sh dn hs hd hok
+  exact ⟨sh, dn, h5, map, dang, hcore, substituteCore_cert h c m sh dn hw mw hc (by simpa using hio) hcf hs hd k1 k2 k3 k4 hni
+    h5 map dang hcore, hk⟩
+
 /-- the certificate for `substitute` when nothing is removed -/
 theorem substitute_cert (h m h' : NNet) (c : Nat) (hw : WF h) (mw : WF m) (hc : c < h.net.nodes.size)
     (hio : h.net.io.contains c = false) (hcf : (h.net.node c).isFork = false)
     (hr : keepsAllB h c m = true) (hok : implOKB m = true) (he : substitute h c m = some h') :
-    ∃ sh dn map, SubstCert h c m sh dn map h' := by
-  obtain ⟨sh, dn, map, dang, hs, hd, hcore, hni⟩ := substitute_keepsAll_eq h c m h' hr he
-  obtain ⟨k1, k2, k3, k4⟩ := implOKB_spec m sh dn hs hd hok
-  exact ⟨sh, dn, map, substituteCore_cert h c m sh dn hw mw hc (by simpa using hio) hcf hs hd k1 k2 k3 k4 hni
-    h' map dang hcore⟩
+    ∃ sh dn map, SubstCertD h c m sh dn map h' := by
+  obtain ⟨sh, dn, h5, map, dang, hcore, ct, hk⟩ := substituteCore_cert_keepsAll h m c hw mw hc hio hcf hr hok
+  exact ⟨sh, dn, map, h5, ct, substitute_of_core h c m h' h5 map dang hcore ct.wf' hk he⟩
 
 end KV.Transform
 
@@ -170,6 +222,112 @@ theorem SubstCert.backward {α : Type _} (z : α) (neg : α → α) (prim : Stri
   exact ct.reads_eq j x hm hnp _ vm (ct.bw_agree z neg prim v anm vm hM) k
 
 end cert
+
+/-! ### the same interface for the result of `substitute` (copied forks made dense) -/
+section certD
+variable {h : NNet} {c : Nat} {m : NNet} {sh : Shape} {dn : Nat} {map : Array (Option Nat)} {h' : NNet}
+variable (ct : SubstCertD h c m sh dn map h')
+include ct
+
+theorem SubstCertD.shape : implShape m = some sh := by obtain ⟨h5, c5, _⟩ := ct; exact c5.shape
+theorem SubstCertD.des : sh.des = some dn := by obtain ⟨h5, c5, _⟩ := ct; exact c5.des
+theorem SubstCertD.mapDn : map.getD dn none = some c := by obtain ⟨h5, c5, _⟩ := ct; exact c5.mapDn
+theorem SubstCertD.mapM : ∀ j x, map.getD j none = some x → j < m.net.nodes.size := by obtain ⟨h5, c5, _⟩ := ct; exact c5.mapM
+theorem SubstCertD.mapGe : ∀ j x, map.getD j none = some x → x = c ∨ h.net.nodes.size ≤ x := by
+  obtain ⟨h5, c5, _⟩ := ct; exact c5.mapGe
+theorem SubstCertD.mapInj : ∀ j1 j2 x, map.getD j1 none = some x → map.getD j2 none = some x → j1 = j2 := by
+  obtain ⟨h5, c5, _⟩ := ct; exact c5.mapInj
+
+theorem SubstCertD.wf' : WF h' := by
+  obtain ⟨h5, c5, e⟩ := ct
+  rw [e]; exact (densNN_dens _ h5 c5.wf').2
+
+theorem SubstCertD.nsize : h.net.nodes.size ≤ h'.net.nodes.size := by
+  obtain ⟨h5, c5, e⟩ := ct
+  rw [e, (densNN_dens _ h5 c5.wf').1.nsize]; exact c5.nsize
+
+theorem SubstCertD.lsize : h'.net.lines.size = h.net.lines.size + (copiedLines m map).length := by
+  obtain ⟨h5, c5, e⟩ := ct
+  rw [e, (densNN_dens _ h5 c5.wf').1.lsize]; exact c5.lsize
+
+theorem SubstCertD.io' : h'.net.io = h.net.io := by
+  obtain ⟨h5, c5, e⟩ := ct
+  rw [e, (densNN_dens _ h5 c5.wf').1.io]; exact c5.io'
+
+theorem SubstCertD.mapLt : ∀ j x, map.getD j none = some x → x < h'.net.nodes.size := by
+  obtain ⟨h5, c5, e⟩ := ct
+  intro j x hm
+  rw [e, (densNN_dens _ h5 c5.wf').1.nsize]; exact c5.mapLt j x hm
+
+theorem SubstCertD.kind' : ∀ j x, map.getD j none = some x →
+    (h'.net.node x).kind = if j ∈ m.net.io then "__fork__" else (m.net.node j).kind := by
+  obtain ⟨h5, c5, e⟩ := ct
+  intro j x hm
+  rw [e, (densNN_dens _ h5 c5.wf').1.kind]; exact c5.kind' j x hm
+
+/-- the loop touches only images of `node_map`: every other node of the host keeps its record -/
+theorem SubstCertD.frameNode : ∀ d, d < h.net.nodes.size → d ≠ c → h'.net.node d = h.net.node d := by
+  obtain ⟨h5, c5, e⟩ := ct
+  intro d hd hne
+  rw [e, (densNN_dens _ h5 c5.wf').1.frame d, c5.frameNode d hd hne]
+  intro hmem
+  obtain ⟨k, hk⟩ := mem_map_values map d hmem
+  rcases c5.mapGe k d hk with h1 | h1
+  · exact hne h1
+  · omega
+
+theorem SubstCertD.keyFrame : ∀ d, d < h.net.nodes.size → h'.key d = h.key d := by
+  obtain ⟨h5, c5, e⟩ := ct
+  intro d hd
+  rw [← c5.keyFrame d hd, e]
+  have dd := (densNN_dens (map.toList.filterMap id) h5 c5.wf').1
+  simp only [NNet.key, dd.names, NodeD.isFork, dd.kind]
+
+theorem SubstCertD.forward {α : Type _} (z : α) (neg : α → α) (prim : String → α → α → α → α → α)
+    (S : Nat → Prop) (hS : ∀ s, S s → s < h.net.nodes.size ∧ s ≠ c) (an' v' : Nat → α)
+    (hc' : ConsOff h' S z neg prim an' v') :
+    ConsOff h (fun d => S d ∨ d = c) z neg prim an' v' ∧
+    ∃ anm vm, ImplMatches h c m sh z neg prim anm vm v' ∧
+      (∀ j x, j ∉ m.net.io → map.getD j none = some x → anm j = an' x) ∧
+      (∀ t (ht : t < (copiedLines m map).length), vm (copiedLines m map)[t] = v' (h.net.lines.size + t)) ∧
+      (∀ j x k, map.getD j none = some x → ¬ (j ∈ m.net.io ∧ (m.net.node j).ins.length = 0) →
+        ((h'.net.node x).inPin k).map v' = (((cutIns m (deadLine h c m sh)).net.node j).inPin k).map vm) := by
+  obtain ⟨h5, c5, e⟩ := ct
+  subst e
+  have dd := (densNN_dens (map.toList.filterMap id) h5 c5.wf').1
+  obtain ⟨f1, anm, vm, g1, g2, g3, g4⟩ := c5.forward z neg prim S hS an' v' ((dd.consOff_iff c5.wf' S z neg prim an' v').mp hc')
+  refine ⟨f1, anm, vm, g1, g2, g3, fun j x k hm hnp => ?_⟩
+  rw [← g4 j x k hm hnp]
+  simp only [NodeD.inPin, dd.ins]
+
+theorem SubstCertD.backward {α : Type _} (z : α) (neg : α → α) (prim : String → α → α → α → α → α)
+    (S : Nat → Prop) (an v anm vm : Nat → α)
+    (hH : ConsOff h (fun d => S d ∨ d = c) z neg prim an v) (hM : ImplMatches h c m sh z neg prim anm vm v) :
+    ∃ an' v', ConsOff h' S z neg prim an' v' ∧ (∀ l, l < h.net.lines.size → v' l = v l) ∧
+      (∀ d, d < h.net.nodes.size → d ≠ c → an' d = an d) ∧
+      (∀ j x, j ∉ m.net.io → map.getD j none = some x → an' x = anm j) ∧
+      (∀ t (ht : t < (copiedLines m map).length), v' (h.net.lines.size + t) = vm (copiedLines m map)[t]) ∧
+      (∀ j x k, map.getD j none = some x → ¬ (j ∈ m.net.io ∧ (m.net.node j).ins.length = 0) →
+        ((h'.net.node x).inPin k).map v' = (((cutIns m (deadLine h c m sh)).net.node j).inPin k).map vm) := by
+  obtain ⟨h5, c5, e⟩ := ct
+  subst e
+  have dd := (densNN_dens (map.toList.filterMap id) h5 c5.wf').1
+  obtain ⟨an', v', g0, g1, g2, g3, g4, g5⟩ := c5.backward z neg prim S an v anm vm hH hM
+  refine ⟨an', v', (dd.consOff_iff c5.wf' S z neg prim an' v').mpr g0, g1, g2, g3, g4, fun j x k hm hnp => ?_⟩
+  rw [← g5 j x k hm hnp]
+  simp only [NodeD.inPin, dd.ins]
+
+end certD
+
+/-- when no copied fork has a gap (`denseB`) the loop changes nothing: the result IS the circuit `substituteCore` builds -/
+theorem densNN_of_denseB (h : NNet) (c : Nat) (m h5 : NNet) (map : Array (Option Nat)) (dang : List (Option Nat))
+    (hcore : substituteCore h c m = some (h5, map, dang)) (hdn : denseB h c m = true) :
+    densNN h5 (map.toList.filterMap id) = h5 := by
+  unfold denseB at hdn
+  simp only [hcore, Bool.not_eq_true'] at hdn
+  show ({ h5 with net := densify h5.net map } : NNet) = h5
+  rw [densify_of_dense h5.net map hdn]
+
 end KV.Transform
 
 namespace KV.Transform
